@@ -66,6 +66,8 @@ KnifeCase(e, S) == IF Kind(e) = "entry"
                    THEN LET rows == RowsOfKind(S.decl, "entry", e.side)
                         IN \E i \in DOMAIN rows : rows[i][1] = e.q /\ Knife(rows[i][2], e.cur)
                    ELSE Knife(e.p, e.cur)
+BagEq(a, b) == /\ Len(a) = Len(b)
+               /\ \A i \in DOMAIN a : Cardinality({j \in DOMAIN a : a[j] = a[i]}) = Cardinality({j \in DOMAIN b : b[j] = a[i]})
 IsExit(o) == o.via # "none" \/ o.ro
 FlatClauses(act) == If(\A i \in DOMAIN act : ~IsExit(act[i]), "active-exit-when-flat")
 OfVia(act, via) == SelectSeq(act, LAMBDA o : o.via = via)
@@ -125,6 +127,11 @@ Step ==
             /\ sym' = [sym EXCEPT ![e.s].rest = {}]
             /\ stats' = [stats EXCEPT !.after = @ + 1]
             /\ UNCHANGED ords
+       [] e.k = "proj" ->      \* replay of a model behaviour: projected model state next to the real one
+            /\ vs' = AddAll(vs, l, IF e.cmp THEN If(e.mq = e.iq, "model-divergence:position")
+                                                  \o If(BagEq(e.mact, e.iact), "model-divergence:active-orders")
+                                   ELSE <<>>)
+            /\ UNCHANGED <<ords, sym, stats>>
        [] OTHER -> UNCHANGED <<vs, ords, sym, stats>>
   /\ l' = l + 1 /\ UNCHANGED tid
 Spec == Init /\ [][Step]_vars
